@@ -6,6 +6,7 @@ import (
 	"errors"
 	"fmt"
 	"net"
+	"reflect"
 	"sort"
 	"sync"
 	"testing"
@@ -106,6 +107,11 @@ var c14 = newChk("C14", "dispatch",
 			}
 			if c.V6 {
 				s, err := server6.NewServer("", nil, func(_ net.PacketConn, peer net.Addr, m dhcpv6.DHCPv6) {
+					if rv := reflect.ValueOf(m); m == nil || (rv.Kind() == reflect.Ptr && rv.IsNil()) {
+						// a handler invoked without a message: recorded as a dispatch nobody expects
+						handle(-2, func() []byte { return nil }, func() string { return fmt.Sprintf("%T %v", peer, peer) })
+						return
+					}
 					handle(serial6(m), m.ToBytes, func() string { return fmt.Sprintf("%T %v", peer, peer) })
 				}, server6.WithConn(conn))
 				if err != nil {
@@ -116,6 +122,10 @@ var c14 = newChk("C14", "dispatch",
 				c14Drive(c, conn, func() { s.Close() }, releases, serialOf, &mu, &serveDone, &earlyReturn, sockErr)
 			} else {
 				s, err := server4.NewServer("", nil, func(_ net.PacketConn, peer net.Addr, m *dhcpv4.DHCPv4) {
+					if m == nil {
+						handle(-2, func() []byte { return nil }, func() string { return fmt.Sprintf("%T %v", peer, peer) })
+						return
+					}
 					handle(serial4(m), m.ToBytes, func() string { return fmt.Sprintf("%T %v", peer, peer) })
 				}, server4.WithConn(conn))
 				if err != nil {
